@@ -199,6 +199,7 @@ def trees(tier):
     t += S.D3flow()[:12]
     if tier != "quick":
         t += S.D3_quick() + S.D3flow() + S.D3()
+    t += S.DX()
     seen, out = set(), []
     for s in t:
         k = S.key(s)
